@@ -32,7 +32,10 @@ RULE = ("P1: all 4^n labellings (n=5; 6 thorough) of the cells into "
         "log2CPM input, copy_data_over, same file name in several directories, "
         "later files listing the genes in another order (refused or summed "
         "by name)}.  P4: all 6 coarsenings of a 3-level "
-        "tree + all two-step routes.  P5: merges of 2-3 files.  "
+        "tree + all two-step routes, for every listing order of the class "
+        "(2) and sub-class (6) tables x 4 listing orders of the leaf table "
+        "(48 trees; the file's cluster_to_row follows the listing, the "
+        "leaves are walked in their own order).  P5: merges of 2-3 files.  "
         "distinct_nontrivial = distinct (labelling, partition, flags) runs "
         "with >= 1 labelled cell")
 ASSUMPTIONS = [
@@ -65,7 +68,12 @@ def cases(tier, seed):
             yield {'kind': 'P2', 'labelling': lab, 'files': comp, 'n': n,
                    'seed': seed}
     yield {'kind': 'P3', 'n': n, 'seed': seed}
-    yield {'kind': 'P4', 'seed': seed}
+    # P4: every listing order of the class and sub-class tables x 4 listing
+    # orders of the leaf table (the order in which a coarser node is first
+    # met while walking the leaves then differs from the order in which
+    # the coarser level lists it)
+    for order in range(2 * 6 * 4):
+        yield {'kind': 'P4', 'seed': seed, 'order': order}
     yield {'kind': 'P5', 'seed': seed}
 
 
@@ -414,6 +422,17 @@ def coarsening(d, tmp, case, viol, keys):
                     'cl_d': ['cell_2', 'cell_6'], 'cl_c': ['cell_3'],
                     'cl_e': ['cell_4', 'cell_7']},
     }
+    order = case.get('order', 0)
+    k_perm = list(itertools.permutations(list(tree['class'])))[order % 2]
+    s_perm = list(itertools.permutations(list(tree['sub'])))[(order // 2) % 6]
+    leaves = list(tree['cluster'])
+    l_perm = [leaves, leaves[::-1], sorted(leaves),
+              leaves[2:] + leaves[:2]][(order // 12) % 4]
+    tree['class'] = {k: tree['class'][k] for k in k_perm}
+    tree['sub'] = {k: tree['sub'][k] for k in s_perm}
+    tree['cluster'] = {k: tree['cluster'][k] for k in l_perm}
+    order_tag = f'[listing order {order}: {list(k_perm)} {list(s_perm)} ' \
+                f'{list(l_perm)}] '
     leaf_of = {}
     for leaf, cells in tree['cluster'].items():
         for c in cells:
@@ -444,7 +463,7 @@ def coarsening(d, tmp, case, viol, keys):
     subs = [list(c) for k in (1, 2) for c in itertools.combinations(h, k)]
     for new in subs:
         out = d / f'p4_{"_".join(new)}.h5'
-        label = f'truncate {h} -> {new}'
+        label = f'{order_tag}truncate {h} -> {new}'
         try:
             truncate_precomputed_stats_file(
                 input_path=full, output_path=out, new_hierarchy=new)
@@ -459,7 +478,7 @@ def coarsening(d, tmp, case, viol, keys):
         for new2 in [list(c) for k in range(1, len(new))
                      for c in itertools.combinations(new, k)]:
             out2 = d / f'p4_{"_".join(new)}__{"_".join(new2)}.h5'
-            label2 = f'truncate {h} -> {new} -> {new2}'
+            label2 = f'{order_tag}truncate {h} -> {new} -> {new2}'
             try:
                 truncate_precomputed_stats_file(
                     input_path=out, output_path=out2, new_hierarchy=new2)
